@@ -68,6 +68,11 @@ class FunctionKind(enum.Enum):
         if isinstance(func_or_desc, classmethod):
             return FunctionKind.CLASS
         elif isinstance(func_or_desc, staticmethod):
+            if func.__qualname__.split(".")[-1] == "__new__":
+                # type.__new__ wraps a plain `def __new__(cls, ...)` in a
+                # staticmethod: the source has no decorator and `cls` is the
+                # receiver.
+                return FunctionKind.INSTANCE
             return FunctionKind.STATIC
         elif isinstance(func_or_desc, property):
             return FunctionKind.PROPERTY
